@@ -96,6 +96,22 @@ K5_HISTORY = {"hid": "K5-foreign-delete-name-cache", "ops": [
     {"a": "delete_study", "s": 1, "c": 2},
     {"a": "get_study_name", "s": 1, "c": 0},
 ]}
+# another client deletes a study this client has cached; this client then creates a study, which on SQLite gets the SAME raw id
+# (finding K2): what the CREATOR reads about its new study must be the new study, whatever its cache held under that id
+FD_HISTORY = {"hid": "FD-foreign-delete-then-local-create", "ops": [
+    {"a": "create_study", "name": "A", "dirs": [0], "c": 0},
+    {"a": "create_trial", "s": 1, "tm": {"has": 0}, "c": 0},
+    {"a": "create_trial", "s": 1, "tm": {"has": 0}, "c": 0},
+    {"a": "set_state", "t": 1, "state": "COMPLETE", "values": [3], "c": 0},
+    {"a": "get_all_trials", "s": 1, "states": ["ALL"], "dc": 1, "as_list": 0, "c": 0},
+    {"a": "delete_study", "s": 1, "c": 2},
+    {"a": "create_study", "name": "B", "dirs": [1], "c": 0},
+    {"a": "get_all_trials", "s": 2, "states": ["ALL"], "dc": 1, "as_list": 0, "c": 0},
+    {"a": "get_n_trials", "s": 2, "state": "ALL", "c": 0},
+    {"a": "create_trial", "s": 2, "tm": {"has": 0}, "c": 0},
+    {"a": "get_all_trials", "s": 2, "states": ["ALL"], "dc": 1, "as_list": 0, "c": 0},
+    {"a": "get_best_trial", "s": 2, "c": 0},
+]}
 F3_HISTORY = {"hid": "F3-finished-template-before-first-sync", "ops": [
     {"a": "create_study", "name": "A", "dirs": [0], "c": 2},
     {"a": "create_trial", "s": 1, "tm": {"has": 0}, "c": 1},
@@ -331,12 +347,18 @@ def judge(ctx, traces, label):
         t = traces[tid - 1]
         i = v.rejected[tid]["reached"]
         ev = t["ev"][i - 1] if 1 <= i <= len(t["ev"]) else None
-        seen, reused = set(), False
+        seen, reused, recreators = set(), False, set()
         for e in t["ev"][:i]:
             if "raw" in e:
                 key = (e["a"], e["raw"])
-                reused = reused or key in seen
+                if key in seen:
+                    reused = True
+                    recreators.add(e["c"])       # the client that was handed the re-issued id by its own create call
                 seen.add(key)
+        # K2 explains stale answers of OTHER clients that still cache the old owner of a re-issued id; the client that
+        # created the new object itself must answer for the new object
+        if ev is not None and ev.get("c") in recreators:
+            reused = False
         f = None
         if t["hid"] == K5_HISTORY["hid"] and t["config"] == "rdb3":
             f = ctx.match_known("cached-rdb:name-directions-served-after-foreign-delete")
@@ -387,7 +409,7 @@ def run(ctx):
     tasks = []
     for kind in GROUPS:
         n = n_slow if kind in RDB_LIKE else n_fast
-        hs = [gen_history(ctx.rng, i) for i in range(n)] + [F3_HISTORY, K5_HISTORY]
+        hs = [gen_history(ctx.rng, i) for i in range(n)] + [F3_HISTORY, K5_HISTORY, FD_HISTORY]
         if ctx.quick:
             hs += [gen_point_first(prng, i) for i in range(n_pf[kind])]
         else:
